@@ -41,6 +41,9 @@ def get_binding_disallow_class_namespace_rename(name, namespace):
         # This name will become an attribute of a class, so it can't be renamed
         binding.disallow_rename()
 
+        # Until it is bound in the class body, the name is looked up in the module namespace
+        get_binding(name, get_global_namespace(namespace)).disallow_rename()
+
     return binding
 
 
